@@ -7,10 +7,13 @@ import vlib, phaselib as pl, setlib as sl
 
 
 def base_worlds(r, n):
-    """Fixed desired states: fresh rollout, partially present members, handover, teardown, archival, collision."""
+    """Fixed desired states: fresh rollout, partially present members, handover, teardown, archival, collision,
+    previous revisions that no longer exist."""
     out = []
-    for _ in range(n):
-        kind = r.choice(["fresh", "partial", "handover", "teardown", "archive", "paused", "collision"])
+    kinds = ["fresh", "partial", "handover", "teardown", "archive", "paused", "collision", "prevgone"]
+    for wi in range(n):
+        # every kind at least once, then seeded random
+        kind = kinds[wi] if wi < len(kinds) else r.choice(kinds)
         cluster = r.random() < 0.2
         okind, ons = (2, 0) if cluster else (1, 1)
         nph = r.choice([1, 2, 3])
@@ -36,6 +39,12 @@ def base_worlds(r, n):
         elif kind == "partial":
             for o in allobjs:
                 if r.random() < 0.5:
+                    store.append(member(o, [[okind, 10, 100, 1]], 2, body=r.choice([1, 2])))
+        elif kind == "prevgone":
+            # spec.previous still names revisions that no longer exist (revision history limit, or deleted by a third party)
+            target["prev"] = [8] if r.random() < 0.5 else [7, 8]
+            for o in allobjs:
+                if r.random() < 0.6:
                     store.append(member(o, [[okind, 10, 100, 1]], 2, body=r.choice([1, 2])))
         elif kind == "handover":
             prev = sl.mk_set(okind, ons, 9, 90, rv=6, phases=copy.deepcopy(phases), revision=1, fin=True,
@@ -201,7 +210,7 @@ def check(run, tier, seed, replay=None):
                     "sets": [x for x in ob["end"]["sets"] if x not in ro["end"]["sets"]]}
             run.violation("C10 end state after disturbance differs from the undisturbed run (%s world, %s)" % (w.get("_kind"), what),
                           {"scenario": s, "impl_end": ob["end"], "reference_end": ro["end"], "diff": diff}, True)
-    run.cov["rule"] = ("worlds (fresh / partial / handover / teardown / archive / paused / collision) x every request index of every pass of the "
+    run.cov["rule"] = ("worlds (fresh / partial / handover / teardown / archive / paused / collision / previous revision gone) x every request index of every pass of the "
                        "first rounds x {error before effect, lost response}, every pass on a fresh controller+cache, drift before every pass; "
                        "distinct = (world kind, disturbance kind, converged, rounds)")
     run.cov["samples"] = [{"scenario": scs[0] if scs else None}]
